@@ -50,8 +50,10 @@ import (
 
 	apiext "github.com/koordinator-sh/koordinator/apis/extension"
 	schedulingv1alpha1 "github.com/koordinator-sh/koordinator/apis/scheduling/v1alpha1"
-	"github.com/koordinator-sh/koordinator/pkg/util/bitmask"
+	schedulerconfig "github.com/koordinator-sh/koordinator/pkg/scheduler/apis/config"
 	"github.com/koordinator-sh/koordinator/pkg/scheduler/frameworkext/hinter"
+	"github.com/koordinator-sh/koordinator/pkg/scheduler/frameworkext/schedulingphase"
+	"github.com/koordinator-sh/koordinator/pkg/util/bitmask"
 	kit "github.com/koordinator-sh/koordinator/pkg/verifkit"
 )
 
@@ -82,12 +84,24 @@ var (
 	c07NodeObjs = map[string]*corev1.Node{
 		"n0": {ObjectMeta: metav1.ObjectMeta{Name: "n0"}},
 		"n1": {ObjectMeta: metav1.ObjectMeta{Name: "n1"}},
+		"n2": {ObjectMeta: metav1.ObjectMeta{Name: "n2"}},
 	}
+	c07PlMost *Plugin // same plugin configured with the MostAllocated scoring strategy
 )
 
 func c07Plugin(t *testing.T) *Plugin {
 	c07Once.Do(func() {
-		nodes := []*corev1.Node{c07NodeObjs["n0"], c07NodeObjs["n1"]}
+		nodes := []*corev1.Node{c07NodeObjs["n0"], c07NodeObjs["n1"], c07NodeObjs["n2"]}
+		{
+			suit2 := newPluginTestSuit(t, nodes)
+			args := getDefaultArgs()
+			args.ScoringStrategy.Type = schedulerconfig.MostAllocated
+			p2, err := suit2.proxyNew(context.TODO(), args, suit2.Framework)
+			if err != nil {
+				t.Fatalf("cannot build the deviceshare plugin (MostAllocated): %v", err)
+			}
+			c07PlMost = p2.(*Plugin)
+		}
 		suit := newPluginTestSuit(t, nodes)
 		p, err := suit.proxyNew(context.TODO(), getDefaultArgs(), suit.Framework)
 		if err != nil {
@@ -111,6 +125,7 @@ type c07Dev struct {
 	numa    int32
 	pcie    string
 	vfs     int
+	label   string // device label grp=<label>
 }
 
 type c07Node struct {
@@ -132,6 +147,12 @@ type c07Node struct {
 	// re-partition needs an idle GPU, and after a card swap / reboot no pod of the old card is left.
 	memBytes, memResize bool
 	partCase            bool // the case has partitioned nodes and pods with partition specs
+	npu                 bool // the GPUs are Huawei NPUs
+	wellPlanned         bool // Device label secondary-device-well-planned=true
+	// omitMinor0: the device reporter leaves the optional field `minor` out for the device whose minor is 0 (a
+	// serializer that omits zero values). The CRD requires only `health`; most of the package reads the field with
+	// ptr.Deref(minor, 0), so the inventory means the same as with an explicit 0.
+	omitMinor0 bool
 	// GPU partitions: part = "" (none), "label" (node label gpu-model of a model with a built-in table) or
 	// "annotation" (table annotated on the Device object). honor = the node says partitions must be honored
 	// (label gpu-partition-policy=Honor, put on the Node and on the Device object alike). table: size -> minor
@@ -158,7 +179,7 @@ func c07Q(v int64) resource.Quantity { return *resource.NewQuantity(v, resource.
 
 func c07QB(v int64) resource.Quantity { return *resource.NewQuantity(v, resource.BinarySI) }
 
-var c07MemPool = []int64{16 << 30, 85198045184, 15843721216, 24 << 30, 1000003, 8 << 30}
+var c07MemPool = []int64{16 << 30, 85198045184, 15843721216, 24 << 30, 1000003, 8 << 30, 32 << 30, 151397597184}
 
 func c07GenNode(r *kit.Rand, name string, memBytes, memResize, partitioned bool) *c07Node {
 	n := &c07Node{partCase: partitioned, memBytes: memBytes, memResize: memResize, name: name, obj: c07NodeObjs[name], typeGone: map[schedulingv1alpha1.DeviceType]bool{}}
@@ -171,9 +192,9 @@ func c07GenNode(r *kit.Rand, name string, memBytes, memResize, partitioned bool)
 	}
 	n.vf = n.topo && r.Pct(60)
 	n.gpuMem = kit.Pick(r, c07MemPool)
-	ngpu := kit.Pick(r, []int{0, 1, 1, 2, 2, 3, 4, 4, 8})
-	nrdma := kit.Pick(r, []int{0, 0, 1, 2, 2, 4})
-	nfpga := kit.Pick(r, []int{0, 0, 0, 1, 2})
+	ngpu := kit.Pick(r, []int{0, 1, 1, 1, 2, 2, 2, 3, 4, 4, 4, 6, 8, 8, 16})
+	nrdma := kit.Pick(r, []int{0, 0, 0, 1, 2, 2, 2, 4, 4, 8})
+	nfpga := kit.Pick(r, []int{0, 0, 0, 0, 0, 1, 1, 2, 2, 4})
 	if ngpu+nrdma+nfpga == 0 {
 		ngpu = 2
 	}
@@ -181,10 +202,26 @@ func c07GenNode(r *kit.Rand, name string, memBytes, memResize, partitioned bool)
 		ngpu = kit.Pick(r, []int{4, 4, 6, 8, 8, 8})
 		n.buildPartitions(r, ngpu)
 	}
+	// NPU node: the "GPUs" are Huawei Ascend cards (no gpu-core; npu-core / npu-cpu / npu-dvpp instead)
+	n.npu = !partitioned && ngpu > 0 && r.Pct(6)
+	hetero := r.Pct(15) // GPUs of different memory sizes on one node
 	add := func(t schedulingv1alpha1.DeviceType, cnt int, firstMinor int32, res func() corev1.ResourceList) {
 		half := (cnt + 1) / 2
+		// minor numbering: contiguous (mostly), starting above 0, or with holes (cards removed / renumbered)
+		scheme := 0
+		if n.part == "" {
+			scheme = r.Weighted(70, 10, 20)
+		}
+		if scheme == 1 {
+			firstMinor += int32(r.Range(1, 3))
+		}
+		next := firstMinor
 		for i := 0; i < cnt; i++ {
-			d := &c07Dev{typ: t, minor: firstMinor + int32(i), health: true, present: true}
+			if scheme == 2 && r.Pct(30) {
+				next += int32(r.Range(1, 2))
+			}
+			d := &c07Dev{typ: t, minor: next, health: true, present: true, label: kit.Pick(r, []string{"a", "a", "b"})}
+			next++
 			d.base = res()
 			d.res = d.base.DeepCopy()
 			d.numa = int32(i / half)
@@ -196,8 +233,18 @@ func c07GenNode(r *kit.Rand, name string, memBytes, memResize, partitioned bool)
 		}
 	}
 	add(c07GPU, ngpu, 0, func() corev1.ResourceList {
-		return corev1.ResourceList{apiext.ResourceGPUCore: c07Q(100), apiext.ResourceGPUMemoryRatio: c07Q(100), apiext.ResourceGPUMemory: c07QB(n.gpuMem)}
+		mem := n.gpuMem
+		if hetero {
+			mem = kit.Pick(r, c07MemPool)
+		}
+		if n.npu {
+			return corev1.ResourceList{apiext.ResourceHuaweiNPUCore: c07Q(8), apiext.ResourceHuaweiNPUCPU: c07Q(7), apiext.ResourceHuaweiNPUDVPP: c07Q(100),
+				apiext.ResourceGPUMemoryRatio: c07Q(100), apiext.ResourceGPUMemory: c07QB(mem)}
+		}
+		return corev1.ResourceList{apiext.ResourceGPUCore: c07Q(100), apiext.ResourceGPUMemoryRatio: c07Q(100), apiext.ResourceGPUMemory: c07QB(mem)}
 	})
+	n.wellPlanned = ngpu > 0 && nrdma > 0 && r.Pct(10)
+	n.omitMinor0 = r.Pct(1)
 	add(c07RDMA, nrdma, int32(r.Range(0, 1)), func() corev1.ResourceList { return corev1.ResourceList{apiext.ResourceRDMA: c07Q(100)} })
 	add(c07FPGA, nfpga, 0, func() corev1.ResourceList { return corev1.ResourceList{apiext.ResourceFPGA: c07Q(100)} })
 	return n
@@ -233,8 +280,14 @@ func (n *c07Node) buildPartitions(r *kit.Rand, ngpu int) {
 		return
 	}
 	table := apiext.GPUPartitionTable{}
+	withBW := r.Bool()
 	add := func(size int, minors []int, score int) {
-		table[size] = append(table[size], apiext.GPUPartition{Minors: minors, GPULinkType: apiext.GPUNVLink, AllocationScore: score})
+		pt := apiext.GPUPartition{Minors: minors, GPULinkType: apiext.GPUNVLink, AllocationScore: score}
+		if withBW {
+			bw := resource.MustParse(kit.Pick(r, []string{"200Gi", "400Gi"}))
+			pt.RingBusBandwidth = &bw
+		}
+		table[size] = append(table[size], pt)
 		n.table[size] = append(n.table[size], minors)
 	}
 	for size := 1; size <= ngpu; size *= 2 {
@@ -281,6 +334,12 @@ func (n *c07Node) buildCR() *schedulingv1alpha1.Device {
 	if n.tableJSON != "" {
 		cr.Annotations = map[string]string{apiext.AnnotationGPUPartitions: n.tableJSON}
 	}
+	if n.wellPlanned {
+		if cr.Labels == nil {
+			cr.Labels = map[string]string{}
+		}
+		cr.Labels[apiext.LabelSecondaryDeviceWellPlanned] = "true"
+	}
 	for _, d := range n.devs {
 		if !d.reported(n) {
 			continue
@@ -288,6 +347,10 @@ func (n *c07Node) buildCR() *schedulingv1alpha1.Device {
 		minor := d.minor
 		info := schedulingv1alpha1.DeviceInfo{
 			Type: d.typ, UUID: fmt.Sprintf("%s-%s-%d", n.name, d.typ, d.minor), Minor: &minor, Health: d.health, Resources: d.res.DeepCopy(),
+			Labels: map[string]string{"grp": d.label},
+		}
+		if n.omitMinor0 && d.minor == 0 {
+			info.Minor = nil
 		}
 		if n.topo {
 			info.Topology = &schedulingv1alpha1.DeviceTopology{SocketID: d.numa, NodeID: d.numa, PCIEID: d.pcie, BusID: fmt.Sprintf("0000:%02x:00.0", 16+int(d.minor))}
@@ -489,6 +552,9 @@ type c07Want struct {
 
 type c07Shape struct {
 	partSpec *apiext.GPUPartitionSpec // the pod's gpu-partition-spec annotation, if any
+	selector map[schedulingv1alpha1.DeviceType]string // hint Selector grp=<value>: only devices with that label may be used
+	split    bool                                      // the requests are spread over two containers
+	initC    bool                                      // an init container asks for (at most) the same
 	memUnit  string // unit of GPU memory the request names: "bytes", "ratio" (whole GPUs name ratio 100), "" without GPU
 	class    string
 	requests corev1.ResourceList
@@ -523,6 +589,11 @@ func c07GPUShape(r *kit.Rand, n *c07Node, sh *c07Shape) {
 		if r.Pct(50) {
 			sh.partSpec = &apiext.GPUPartitionSpec{AllocatePolicy: kit.Pick(r, []apiext.GPUPartitionAllocatePolicy{apiext.GPUPartitionAllocatePolicyRestricted, apiext.GPUPartitionAllocatePolicyBestEffort, ""})}
 			sh.class += "pspec-" + string(sh.partSpec.AllocatePolicy) + "-"
+			if r.Pct(15) {
+				bw := resource.MustParse(kit.Pick(r, []string{"100Gi", "200Gi", "400Gi"}))
+				sh.partSpec.RingBusBandwidth = &bw
+				sh.class += "bw-"
+			}
 		}
 		if r.Pct(65) {
 			cnt = int64(kit.Pick(r, []int{1, 2, 2, 2, 4, 4, 8, 3}))
@@ -542,14 +613,43 @@ func c07GPUShape(r *kit.Rand, n *c07Node, sh *c07Shape) {
 			return
 		}
 	}
+	if n.npu {
+		// Only resources the cards expose are requested: a pod asking for gpu-core / nvidia.com/gpu never reaches this
+		// plugin on such a node, because the node's allocatable (which koordlet derives from the same devices) has no
+		// such resource and NodeResourcesFit rejects the node first. (The allocator itself does not check this: a
+		// requested resource that a device does not expose is ignored by its candidate test.)
+		switch r.Weighted(60, 20, 20) {
+		case 0:
+			// N whole Ascend cards: all 8 AI cores and the whole memory of each
+			sh.class += "npu-8N"
+			sh.requests[apiext.ResourceHuaweiNPUCore] = c07Q(8 * cnt)
+			sh.requests[apiext.ResourceGPUMemoryRatio] = c07Q(100 * cnt)
+			w.count, w.per = int(cnt), corev1.ResourceList{apiext.ResourceHuaweiNPUCore: c07Q(8), apiext.ResourceGPUMemoryRatio: c07Q(100)}
+		case 1:
+			sh.class += "ratio-100N"
+			sh.requests[apiext.ResourceGPUMemoryRatio] = c07Q(100 * cnt)
+			w.count, w.per = int(cnt), corev1.ResourceList{apiext.ResourceGPUMemoryRatio: c07Q(100)}
+		default:
+			mr := c07Pct(r)
+			sh.class += "ratio-frac"
+			sh.requests[apiext.ResourceGPUMemoryRatio] = c07Q(mr)
+			w.per = corev1.ResourceList{apiext.ResourceGPUMemoryRatio: c07Q(mr)}
+		}
+		return
+	}
 	wb := 0
 	if n.memBytes {
 		wb = 14
 	}
 	switch k := r.Weighted(12, 6, 8, 4, 14, 16, 6, wb, wb*2/3, 10); k {
 	case 0:
+		// N whole cards by the vendor's extended resource name
+		name := kit.Pick(r, []corev1.ResourceName{apiext.ResourceNvidiaGPU, apiext.ResourceNvidiaGPU, apiext.ResourceNvidiaGPU, apiext.ResourceAMDGPU, apiext.ResourceHygonDCU})
 		sh.class += "nvidia-N"
-		sh.requests[apiext.ResourceNvidiaGPU] = c07Q(cnt)
+		if name != apiext.ResourceNvidiaGPU {
+			sh.class = strings.Replace(sh.class, "nvidia-N", "vendor-N", 1)
+		}
+		sh.requests[name] = c07Q(cnt)
 		w.count, w.per = int(cnt), whole
 	case 1:
 		sh.class += "koordgpu-100N"
@@ -629,6 +729,7 @@ func c07DefaultShape(r *kit.Rand, t schedulingv1alpha1.DeviceType, name corev1.R
 func c07GenShape(r *kit.Rand, n *c07Node) *c07Shape {
 	sh := &c07Shape{requests: corev1.ResourceList{}, want: map[schedulingv1alpha1.DeviceType]*c07Want{}, plain: true}
 	hasGPU, hasRDMA, hasFPGA := len(n.devsOf(c07GPU)) > 0, len(n.devsOf(c07RDMA)) > 0, len(n.devsOf(c07FPGA)) > 0
+	hasGPUx := hasGPU && !n.npu // for the constrained shapes, which ask for whole NVIDIA-style GPUs
 	// weights follow what the node has, with a little left for types it does not have
 	wg, wr, wf, wc, wx := 2, 1, 1, 0, 0
 	if hasGPU {
@@ -646,7 +747,48 @@ func c07GenShape(r *kit.Rand, n *c07Node) *c07Shape {
 	if n.topo {
 		wx = 14
 	}
-	switch r.Weighted(wg, wr, wf, wc, wx) {
+	switch r.Weighted(wg, wr, wf, wc, wx, 6) {
+	case 5:
+		// hint-constrained shapes that need no topology: device selector, requests-as-count, device-level exclusive
+		sh.plain = false
+		sh.hints = apiext.DeviceAllocateHints{}
+		switch k := r.Intn(3); {
+		case k == 0 && hasGPUx:
+			c07GPUShape(r, n, sh)
+			g := kit.Pick(r, []string{"a", "b"})
+			sh.class = "x-selector-" + sh.class
+			sh.selector = map[schedulingv1alpha1.DeviceType]string{c07GPU: g}
+			sh.hints[c07GPU] = &apiext.DeviceHint{Selector: &metav1.LabelSelector{MatchLabels: map[string]string{"grp": g}}}
+		case k <= 1 && hasRDMA:
+			c07DefaultShape(r, c07RDMA, apiext.ResourceRDMA, sh)
+			g := kit.Pick(r, []string{"a", "b"})
+			sh.class = "x-selector-" + sh.class
+			sh.selector = map[schedulingv1alpha1.DeviceType]string{c07RDMA: g}
+			sh.hints[c07RDMA] = &apiext.DeviceHint{Selector: &metav1.LabelSelector{MatchLabels: map[string]string{"grp": g}}}
+		case hasRDMA || hasFPGA:
+			// the requested quantity is a number of devices; what is booked per device is the allocator's business,
+			// at least one unit of each
+			t, name := c07RDMA, corev1.ResourceName(apiext.ResourceRDMA)
+			if !hasRDMA {
+				t, name = c07FPGA, apiext.ResourceFPGA
+			}
+			k := int64(r.Range(1, 3))
+			sh.class = "x-" + string(t) + "-ascount"
+			sh.requests[name] = c07Q(k)
+			sh.want[t] = &c07Want{count: int(k), per: corev1.ResourceList{name: c07Q(1)}}
+			sh.hints[t] = &apiext.DeviceHint{AllocateStrategy: apiext.RequestsAsCountAllocateStrategy}
+			if r.Bool() {
+				sh.hints[t].ExclusivePolicy = apiext.DeviceLevelDeviceExclusivePolicy
+				sh.class += "-exclusive"
+			}
+		default:
+			sh.plain = true
+			sh.hints = nil
+			c07GPUShape(r, n, sh)
+		}
+		if len(sh.hints) == 0 {
+			sh.hints = nil
+		}
 	case 0:
 		c07GPUShape(r, n, sh)
 	case 1:
@@ -664,19 +806,24 @@ func c07GenShape(r *kit.Rand, n *c07Node) *c07Shape {
 		cnt := int64(kit.Pick(r, []int{1, 2, 2, 3, 4}))
 		whole := corev1.ResourceList{apiext.ResourceGPUCore: c07Q(100), apiext.ResourceGPUMemoryRatio: c07Q(100)}
 		switch k := r.Weighted(30, 25, 30, 15); {
-		case k == 0 && hasGPU:
+		case k == 0 && hasGPUx:
 			scope := kit.Pick(r, []apiext.DeviceTopologyScope{apiext.DeviceTopologyScopePCIe, apiext.DeviceTopologyScopeNUMANode})
 			sh.class = "x-gpu-scope-" + string(scope)
 			sh.memUnit = "ratio"
 			sh.requests[apiext.ResourceNvidiaGPU] = c07Q(cnt)
 			sh.want[c07GPU] = &c07Want{count: int(cnt), per: whole}
 			sh.hints[c07GPU] = &apiext.DeviceHint{RequiredTopologyScope: scope}
+			if r.Pct(25) {
+				// instead of a scope: only GPUs behind PCIe switches none of whose GPUs is in use
+				sh.hints[c07GPU] = &apiext.DeviceHint{ExclusivePolicy: apiext.PCIExpressLevelDeviceExclusivePolicy}
+				sh.class = "x-gpu-pcie-exclusive"
+			}
 		case k == 1 && hasRDMA && n.vf:
 			sh.class = "x-"
 			c07DefaultShape(r, c07RDMA, apiext.ResourceRDMA, sh)
 			sh.class += "-vf"
 			sh.hints[c07RDMA] = &apiext.DeviceHint{VFSelector: &metav1.LabelSelector{MatchLabels: map[string]string{"type": "general"}}}
-		case k == 2 && hasGPU && hasRDMA:
+		case k == 2 && hasGPUx && hasRDMA:
 			sh.class = "x-joint"
 			sh.memUnit = "ratio"
 			sh.requests[apiext.ResourceNvidiaGPU] = c07Q(cnt)
@@ -685,6 +832,12 @@ func c07GenShape(r *kit.Rand, n *c07Node) *c07Shape {
 			sh.requests[apiext.ResourceRDMA] = c07Q(p)
 			sh.want[c07RDMA] = &c07Want{count: 1, per: corev1.ResourceList{apiext.ResourceRDMA: c07Q(p)}, atLeast: true}
 			sh.joint = &apiext.DeviceJointAllocate{DeviceTypes: []schedulingv1alpha1.DeviceType{c07GPU, c07RDMA}}
+			if r.Pct(25) {
+				// RDMA as the primary type: then the GPUs follow the NICs' PCIe switches and may be more than asked
+				sh.joint.DeviceTypes = []schedulingv1alpha1.DeviceType{c07RDMA, c07GPU}
+				sh.want[c07GPU].atLeast = true
+				sh.class += "-rdma-first"
+			}
 			if r.Bool() {
 				sh.joint.RequiredScope = apiext.SamePCIeDeviceJointAllocateScope
 				sh.class += "-samepcie"
@@ -708,6 +861,7 @@ func c07GenShape(r *kit.Rand, n *c07Node) *c07Shape {
 			sh.hints = nil
 		}
 	}
+	sh.split, sh.initC = r.Pct(12), r.Pct(8)
 	return sh
 }
 
@@ -724,6 +878,7 @@ const (
 var c07StateNames = []string{"idle", "reserved", "bound", "terminated"}
 
 type c07Pod struct {
+	ns         string
 	name       string
 	gen        int
 	state      int
@@ -740,13 +895,48 @@ type c07Pod struct {
 
 func (p *c07Pod) live() bool { return p.state == c07Reserved || p.state == c07Bound }
 
-func (p *c07Pod) key() string { return "default/" + p.name }
+func (p *c07Pod) key() string { return p.ns + "/" + p.name }
 
 func c07NewPodObj(p *c07Pod, sh *c07Shape) *corev1.Pod {
+	if p.ns == "" {
+		p.ns = "default"
+	}
 	pod := &corev1.Pod{
-		ObjectMeta: metav1.ObjectMeta{Namespace: "default", Name: p.name, UID: types.UID(fmt.Sprintf("%s-g%d", p.name, p.gen))},
+		ObjectMeta: metav1.ObjectMeta{Namespace: p.ns, Name: p.name, UID: types.UID(fmt.Sprintf("%s-%s-g%d", p.ns, p.name, p.gen))},
 		Spec: corev1.PodSpec{Containers: []corev1.Container{{Name: "main", Resources: corev1.ResourceRequirements{
 			Requests: sh.requests.DeepCopy(), Limits: sh.requests.DeepCopy()}}}},
+	}
+	if sh.split {
+		// the pod's request is the sum over its containers: move a part of every amount into a second container
+		a, b := corev1.ResourceList{}, corev1.ResourceList{}
+		names := make([]string, 0, len(sh.requests))
+		for k := range sh.requests {
+			names = append(names, string(k))
+		}
+		sort.Strings(names)
+		for i, k := range names {
+			q := sh.requests[corev1.ResourceName(k)]
+			v := q.Value()
+			part := v / 2
+			if i%2 == 1 {
+				part = v - v/3
+			}
+			if v < 2 {
+				part = 0
+			}
+			if part > 0 {
+				a[corev1.ResourceName(k)] = *resource.NewQuantity(part, q.Format)
+			}
+			if v-part > 0 {
+				b[corev1.ResourceName(k)] = *resource.NewQuantity(v-part, q.Format)
+			}
+		}
+		pod.Spec.Containers = []corev1.Container{{Name: "main", Resources: corev1.ResourceRequirements{Requests: a, Limits: a.DeepCopy()}},
+			{Name: "side", Resources: corev1.ResourceRequirements{Requests: b, Limits: b.DeepCopy()}}}
+	}
+	if sh.initC {
+		// an init container runs before the others: the pod's request is max(init, sum of the rest) = the sum
+		pod.Spec.InitContainers = []corev1.Container{{Name: "init", Resources: corev1.ResourceRequirements{Requests: sh.requests.DeepCopy(), Limits: sh.requests.DeepCopy()}}}
 	}
 	if sh.hints != nil {
 		_ = apiext.SetDeviceAllocateHints(pod, sh.hints)
@@ -1132,16 +1322,24 @@ func c07Eligible(n *c07Node, t schedulingv1alpha1.DeviceType, per corev1.Resourc
 func TestVerifC07Ledger(t *testing.T) {
 	pl := c07Plugin(t)
 	ctx := context.TODO()
-	kit.Run(t, kit.Config{Property: "C07", Unit: "ledger", Quick: 2500, Thorough: 100000,
+	kit.Run(t, kit.Config{Property: "C07", Unit: "ledger", Quick: 2000, Thorough: 100000,
 		Rule: "histories of 60-200 operations over 3-8 pod names on 1-2 nodes of a real nodeDeviceCache: inventory events (Device add/update/delete: unhealthy, zero, missing minors/types, changed totals), allocate+commit through Plugin.PreFilter+Reserve or AutopilotAllocator.Allocate+updateCacheUsed, Unreserve / forget / terminated / delete, duplicate and stale pod events, ghost pods; GPU (whole, fractional by percent or bytes, N shares, multi), RDMA, FPGA, combined and constrained (topology scope, VF, joint, ApplyForAll, NUMA affinity) requests; 20 % of the cases with partitioned GPU nodes (built-in table by model label or table annotated on the Device, Honor or Prefer) and pods with/without a partition spec asking for 1/2/3/4/8 whole GPUs; plugin cycles PreFilter->Filter->(informer events)->Reserve incl. designated devices by scheduling hint; preemption dry runs (RemovePod/AddPod/Filter on a cloned cycle state); ledger oracle on every node after every operation; distinct = (request class, path, outcome, eligible-vs-wanted class, live pods, inventory class) and (event kind, pod state); non-trivial = case with a granted and a refused allocation and an inventory change while pods held devices"},
 		func(c *kit.Case) {
 			r := c.R
 			cache := newNodeDeviceCache()
+			pl := pl
+			if r.Pct(30) {
+				pl = c07PlMost
+				c.Count("cases_with_most_allocated_scoring", 1)
+			}
 			pl.nodeDeviceCache = cache
 			memBytes, memResize, partitioned := r.Pct(25), r.Pct(15), r.Pct(20)
 			nodes := []*c07Node{c07GenNode(r, "n0", memBytes, memResize, partitioned)}
-			if r.Pct(40) {
+			if r.Pct(45) {
 				nodes = append(nodes, c07GenNode(r, "n1", memBytes, memResize, partitioned))
+				if r.Pct(22) {
+					nodes = append(nodes, c07GenNode(r, "n2", memBytes, memResize, partitioned))
+				}
 			}
 			if memBytes {
 				c.Count("cases_with_gpu_memory_requests_in_bytes", 1)
@@ -1164,7 +1362,8 @@ func TestVerifC07Ledger(t *testing.T) {
 			npods := r.Range(3, 8)
 			pods := make([]*c07Pod, npods)
 			for i := range pods {
-				pods[i] = &c07Pod{name: fmt.Sprintf("p%d", i)}
+				// two namespaces with the same pod names: the cache must keep default/p0 and team-b/p0 apart
+				pods[i] = &c07Pod{ns: []string{"default", "team-b"}[i%2], name: fmt.Sprintf("p%d", i/2)}
 			}
 			var grantNode *c07Node // set by allocate for the check that follows it
 			grantUnit := ""
@@ -1278,7 +1477,7 @@ func TestVerifC07Ledger(t *testing.T) {
 					if q == nil {
 						return ""
 					}
-					c.Op("  interleaved: delete event %s on %s", q.name, n.name)
+					c.Op("  interleaved: delete event %s on %s", q.key(), n.name)
 					cache.onPodDelete(q.assigned.DeepCopy())
 					release(q)
 					checkAll("interleaved delete event")
@@ -1310,6 +1509,18 @@ func TestVerifC07Ledger(t *testing.T) {
 				var allocs apiext.DeviceAllocations
 				var rawGrant apiext.DeviceAllocations // what the allocator returned when the step after it (fillGPUTotalMem) refused
 				var restrict map[schedulingv1alpha1.DeviceType]sets.Int // devices the request may use (nil entry = all of the type)
+				if sh.selector != nil {
+					restrict = map[schedulingv1alpha1.DeviceType]sets.Int{}
+					for t, g := range sh.selector {
+						allowed := sets.NewInt()
+						for _, d := range n.devsOf(t) {
+							if d.label == g {
+								allowed.Insert(int(d.minor))
+							}
+						}
+						restrict[t] = allowed
+					}
+				}
 				var okAlloc bool
 				var reason string
 				var designated apiext.DeviceAllocations
@@ -1373,6 +1584,7 @@ func TestVerifC07Ledger(t *testing.T) {
 							usedBefore = c07LiveUsed(pods, n)
 							_, healthy = n.inventory()
 						}
+						schedulingphase.RecordPhase(cs, schedulingphase.Reserve) // as the framework does before calling the Reserve plugins
 						st = pl.Reserve(ctx, cs, p.unassigned, n.name)
 					}
 					okAlloc, reason = st.IsSuccess(), st.Message()
@@ -1427,7 +1639,7 @@ func TestVerifC07Ledger(t *testing.T) {
 					if r.Bool() {
 						preemptible = map[schedulingv1alpha1.DeviceType]deviceResources{} // what Plugin.allocate passes when nothing is preemptible
 					}
-					al := &AutopilotAllocator{state: state, nodeDevice: nd, node: n.obj, pod: p.unassigned}
+					al := &AutopilotAllocator{state: state, nodeDevice: nd, node: n.obj, pod: p.unassigned, phaseBeingExecuted: schedulingphase.Reserve}
 					if r.Bool() {
 						al.scorer = pl.scorer
 					}
@@ -1436,6 +1648,7 @@ func TestVerifC07Ledger(t *testing.T) {
 						// store): only devices on the chosen NUMA node may be used, for every requested type
 						numa := r.Intn(2)
 						al.numaNodes, _ = bitmask.NewBitMask(numa)
+						bySelector := restrict
 						restrict = map[schedulingv1alpha1.DeviceType]sets.Int{}
 						for t := range sh.want {
 							allowed := sets.NewInt()
@@ -1443,6 +1656,9 @@ func TestVerifC07Ledger(t *testing.T) {
 								if int(d.numa) == numa {
 									allowed.Insert(int(d.minor))
 								}
+							}
+							if prev, ok := bySelector[t]; ok {
+								allowed = allowed.Intersection(prev)
 							}
 							restrict[t] = allowed
 						}
@@ -1551,7 +1767,7 @@ func TestVerifC07Ledger(t *testing.T) {
 				if n.part != "" && wGPU != nil {
 					partClass = fmt.Sprintf("part=%s honor=%v free-partition=%v broken=%v", n.part, honoring, freePartition, brokenWithSibling)
 				}
-				c.Op("allocate %s(gen %d) on %s via %s: %s %s hints=%v joint=%v allowed=%s %s -> ok=%v %s [%s] eligible=%s", p.name, p.gen, n.name, path, sh.class, c07RL(sh.requests),
+				c.Op("allocate %s(gen %d) on %s via %s: %s %s hints=%v joint=%v allowed=%s %s -> ok=%v %s [%s] eligible=%s", p.key(), p.gen, n.name, path, sh.class, c07RL(sh.requests),
 					sh.hints != nil, sh.joint != nil, c07Restrict(restrict), partClass, okAlloc, c07Allocs(allocs), reason, eligClass)
 				c.Seen("alloc", sh.class, path, okAlloc, eligClass, liveOn(n), invClass(n), partClass)
 				countPath := path
@@ -1636,7 +1852,7 @@ func TestVerifC07Ledger(t *testing.T) {
 						if !freePartition && !n.mixedScore[wGPU.count] && restrict == nil && sh.hints == nil && sh.joint == nil && designated == nil {
 							c.Count("refusals_checked_against_free_partitions", 1)
 						}
-						if freePartition && !n.mixedScore[wGPU.count] && restrict == nil && sh.hints == nil && sh.joint == nil && designated == nil && c07OtherFit(typesSorted, sh, n, usedBefore) {
+						if freePartition && !n.mixedScore[wGPU.count] && restrict == nil && sh.hints == nil && sh.joint == nil && designated == nil && (sh.partSpec == nil || sh.partSpec.RingBusBandwidth == nil) && c07OtherFit(typesSorted, sh, n, usedBefore) {
 							c.Fail("C07/allocate/refused-although-free-partition-exists", "node %s: request %s %s refused (%s) although the node's partition table has a partition of %d GPU(s) that are all healthy and unused; inventory %s", n.name, sh.class, c07RL(sh.requests), reason, wGPU.count, n.describe())
 						}
 						if !freePartition && allFit {
@@ -1725,6 +1941,10 @@ func TestVerifC07Ledger(t *testing.T) {
 			}
 
 			nops := r.Range(60, 200)
+			if r.Pct(3) {
+				nops = r.Range(400, 600)
+				c.Count("long_histories", 1)
+			}
 			for op := 0; op < nops; op++ {
 				kind := r.Weighted(30, 9, 12, 17, 22, 10, 6)
 				where := ""
@@ -1738,14 +1958,14 @@ func TestVerifC07Ledger(t *testing.T) {
 							continue
 						}
 						if p.live() {
-							c.Op("forget %s on %s (to free a pod name)", p.name, p.node.name)
+							c.Op("forget %s on %s (to free a pod name)", p.key(), p.node.name)
 							obj := p.assigned
 							if obj == nil {
 								obj = c07Assign(c, p.unassigned, p.node.name, p.alloc)
 							}
 							cache.deletePod(obj.DeepCopy())
 						} else {
-							c.Op("delete event %s on %s (pod was terminated; to free a pod name)", p.name, p.node.name)
+							c.Op("delete event %s on %s (pod was terminated; to free a pod name)", p.key(), p.node.name)
 							cache.onPodDelete(p.terminated.DeepCopy())
 						}
 						release(p)
@@ -1753,7 +1973,7 @@ func TestVerifC07Ledger(t *testing.T) {
 					}
 					allocate(p, r.Pct(8), nil)
 					c.Count("op_allocate", 1)
-					where = "allocate " + p.name
+					where = "allocate " + p.key()
 				case 1: // release before the bind: Unreserve (or forget)
 					p := pick(func(p *c07Pod) bool { return p.state == c07Reserved })
 					if p == nil {
@@ -1761,21 +1981,21 @@ func TestVerifC07Ledger(t *testing.T) {
 					}
 					if p.cs != nil {
 						pl.Unreserve(ctx, p.cs, p.unassigned, p.node.name)
-						c.Op("unreserve %s on %s (Plugin.Unreserve)", p.name, p.node.name)
+						c.Op("unreserve %s on %s (Plugin.Unreserve)", p.key(), p.node.name)
 					} else if r.Bool() {
 						nd := cache.getNodeDevice(p.node.name, false)
 						nd.lock.Lock()
 						nd.updateCacheUsed(c07CopyAllocs(p.alloc), p.unassigned, false)
 						nd.lock.Unlock()
-						c.Op("unreserve %s on %s (updateCacheUsed remove)", p.name, p.node.name)
+						c.Op("unreserve %s on %s (updateCacheUsed remove)", p.key(), p.node.name)
 					} else {
 						cache.deletePod(c07Assign(c, p.unassigned, p.node.name, p.alloc))
-						c.Op("forget %s on %s (deletePod of the assumed pod)", p.name, p.node.name)
+						c.Op("forget %s on %s (deletePod of the assumed pod)", p.key(), p.node.name)
 					}
 					c.Seen("release", "unreserve", liveOn(p.node), invClass(p.node))
 					release(p)
 					c.Count("op_unreserve", 1)
-					where = "unreserve " + p.name
+					where = "unreserve " + p.key()
 				case 2: // bind event: unassigned -> assigned with the annotation
 					p := pick(func(p *c07Pod) bool { return p.state == c07Reserved })
 					if p == nil {
@@ -1784,11 +2004,11 @@ func TestVerifC07Ledger(t *testing.T) {
 					p.assigned = c07Assign(c, p.unassigned, p.node.name, p.alloc)
 					cache.onPodUpdate(p.unassigned.DeepCopy(), p.assigned.DeepCopy())
 					p.state = c07Bound
-					c.Op("bind event %s on %s (update unassigned -> assigned, duplicate add of the reserved allocation)", p.name, p.node.name)
+					c.Op("bind event %s on %s (update unassigned -> assigned, duplicate add of the reserved allocation)", p.key(), p.node.name)
 					c.Seen("event", "bind", invClass(p.node))
 					c.Count("op_bind_event", 1)
 					c.Count("duplicate_or_stale_events", 1)
-					where = "bind event " + p.name
+					where = "bind event " + p.key()
 				case 3: // terminated / delete events
 					p := pick(func(p *c07Pod) bool { return p.state == c07Bound || p.state == c07Terminated })
 					if p == nil {
@@ -1798,10 +2018,10 @@ func TestVerifC07Ledger(t *testing.T) {
 						p.terminated = c07Terminate(p.assigned, r)
 						cache.onPodUpdate(p.assigned.DeepCopy(), p.terminated.DeepCopy())
 						p.state = c07Terminated
-						c.Op("terminated event %s on %s (%s)", p.name, p.node.name, p.terminated.Status.Phase)
+						c.Op("terminated event %s on %s (%s)", p.key(), p.node.name, p.terminated.Status.Phase)
 						c.Seen("release", "terminated", liveOn(p.node), invClass(p.node))
 						c.Count("op_terminated_event", 1)
-						where = "terminated event " + p.name
+						where = "terminated event " + p.key()
 					} else {
 						obj := p.assigned
 						wasTerminated := p.state == c07Terminated
@@ -1809,12 +2029,12 @@ func TestVerifC07Ledger(t *testing.T) {
 							obj = p.terminated
 							c.Count("duplicate_or_stale_events", 1)
 						}
-						c.Op("delete event %s on %s (pod was %s)", p.name, p.node.name, c07StateNames[p.state])
+						c.Op("delete event %s on %s (pod was %s)", p.key(), p.node.name, c07StateNames[p.state])
 						cache.onPodDelete(obj.DeepCopy())
 						c.Seen("release", "delete", wasTerminated, liveOn(p.node), invClass(p.node))
 						release(p)
 						c.Count("op_delete_event", 1)
-						where = "delete event " + p.name
+						where = "delete event " + p.key()
 					}
 				case 4: // duplicate and stale events: none of them may change anything
 					p := kit.Pick(r, pods)
@@ -1838,19 +2058,19 @@ func TestVerifC07Ledger(t *testing.T) {
 							if alloc == nil {
 								continue
 							}
-							g := &corev1.Pod{ObjectMeta: metav1.ObjectMeta{Namespace: "default", Name: p.name, UID: types.UID(fmt.Sprintf("%s-g%d", p.name, p.gen))}}
+							g := &corev1.Pod{ObjectMeta: metav1.ObjectMeta{Namespace: p.ns, Name: p.name, UID: types.UID(fmt.Sprintf("%s-%s-g%d", p.ns, p.name, p.gen))}}
 							g = c07Assign(c, g, node.name, alloc)
 							g.Status.Phase = corev1.PodSucceeded
 							p.ghost = g
 							cache.onPodAdd(g.DeepCopy())
-							what = fmt.Sprintf("add of already-terminated pod %s on %s carrying allocation %s", p.name, node.name, c07Allocs(alloc))
+							what = fmt.Sprintf("add of already-terminated pod %s on %s carrying allocation %s", p.key(), node.name, c07Allocs(alloc))
 						} else {
 							if r.Bool() {
 								cache.onPodUpdate(p.ghost.DeepCopy(), p.ghost.DeepCopy())
-								what = fmt.Sprintf("update of terminated ghost %s", p.name)
+								what = fmt.Sprintf("update of terminated ghost %s", p.key())
 							} else {
 								cache.onPodDelete(p.ghost.DeepCopy())
-								what = fmt.Sprintf("delete of terminated ghost %s (never held by the cache)", p.name)
+								what = fmt.Sprintf("delete of terminated ghost %s (never held by the cache)", p.key())
 								p.ghost = nil
 								p.gen++
 							}
@@ -1859,14 +2079,14 @@ func TestVerifC07Ledger(t *testing.T) {
 						switch r.Intn(3) {
 						case 0:
 							cache.onPodUpdate(p.unassigned.DeepCopy(), p.unassigned.DeepCopy())
-							what = fmt.Sprintf("update of still-unassigned %s while reserved on %s", p.name, p.node.name)
+							what = fmt.Sprintf("update of still-unassigned %s while reserved on %s", p.key(), p.node.name)
 						case 1:
 							cache.onPodAdd(p.unassigned.DeepCopy())
-							what = fmt.Sprintf("add of still-unassigned %s while reserved on %s", p.name, p.node.name)
+							what = fmt.Sprintf("add of still-unassigned %s while reserved on %s", p.key(), p.node.name)
 						default:
 							// the user deleted the pending pod; the binding cycle then fails and Unreserve follows
 							cache.onPodDelete(p.unassigned.DeepCopy())
-							what = fmt.Sprintf("delete of still-unassigned %s while reserved on %s (Unreserve follows)", p.name, p.node.name)
+							what = fmt.Sprintf("delete of still-unassigned %s while reserved on %s (Unreserve follows)", p.key(), p.node.name)
 							c.Op("stale: %s", what)
 							checkAll("stale " + what)
 							if p.cs != nil {
@@ -1877,17 +2097,28 @@ func TestVerifC07Ledger(t *testing.T) {
 								nd.updateCacheUsed(c07CopyAllocs(p.alloc), p.unassigned, false)
 								nd.lock.Unlock()
 							}
-							what = fmt.Sprintf("unreserve %s after its deletion", p.name)
+							what = fmt.Sprintf("unreserve %s after its deletion", p.key())
 							release(p)
 						}
 					case c07Bound:
-						switch r.Intn(3) {
+						switch r.Intn(4) {
+						case 3:
+							// the pod is being deleted (deletionTimestamp set, containers still running): it holds its devices
+							// until the delete event
+							next := p.assigned.DeepCopy()
+							if next.DeletionTimestamp == nil {
+								ts := metav1.Unix(1700000000, 0)
+								next.DeletionTimestamp = &ts
+							}
+							cache.onPodUpdate(p.assigned.DeepCopy(), next.DeepCopy())
+							p.assigned = next
+							what = fmt.Sprintf("update (terminating: deletionTimestamp set) of bound %s on %s", p.key(), p.node.name)
 						case 0:
 							cache.onPodAdd(p.assigned.DeepCopy())
-							what = fmt.Sprintf("re-add of bound %s on %s", p.name, p.node.name)
+							what = fmt.Sprintf("re-add of bound %s on %s", p.key(), p.node.name)
 						case 1:
 							cache.onPodUpdate(p.assigned.DeepCopy(), p.assigned.DeepCopy())
-							what = fmt.Sprintf("update without change of bound %s on %s", p.name, p.node.name)
+							what = fmt.Sprintf("update without change of bound %s on %s", p.key(), p.node.name)
 						default:
 							// a later version of the bound pod (label change); the annotation stays
 							next := p.assigned.DeepCopy()
@@ -1897,15 +2128,15 @@ func TestVerifC07Ledger(t *testing.T) {
 							next.Labels["rev"] = fmt.Sprint(op)
 							cache.onPodUpdate(p.assigned.DeepCopy(), next.DeepCopy())
 							p.assigned = next
-							what = fmt.Sprintf("update (new label) of bound %s on %s", p.name, p.node.name)
+							what = fmt.Sprintf("update (new label) of bound %s on %s", p.key(), p.node.name)
 						}
 					case c07Terminated:
 						if r.Bool() {
 							cache.onPodUpdate(p.terminated.DeepCopy(), p.terminated.DeepCopy())
-							what = fmt.Sprintf("update of terminated %s on %s", p.name, p.node.name)
+							what = fmt.Sprintf("update of terminated %s on %s", p.key(), p.node.name)
 						} else {
 							cache.onPodAdd(p.terminated.DeepCopy())
-							what = fmt.Sprintf("re-add of terminated %s on %s", p.name, p.node.name)
+							what = fmt.Sprintf("re-add of terminated %s on %s", p.key(), p.node.name)
 						}
 					}
 					c.Op("stale: %s", what)
@@ -1970,10 +2201,10 @@ func TestVerifC07Ledger(t *testing.T) {
 							}
 						}
 						st := pl.PreFilterExtensions().RemovePod(ctx, dry, pre, pi, nodeInfo)
-						c.Op("  dry run RemovePod %s (%s) -> %v", q.name, c07Allocs(q.alloc), st.IsSuccess())
+						c.Op("  dry run RemovePod %s (%s) -> %v", q.key(), c07Allocs(q.alloc), st.IsSuccess())
 						c.Count("dry_run_removepod_calls", 1)
 						removed[q] = true
-						checkAll("dry run RemovePod " + q.name)
+						checkAll("dry run RemovePod " + q.key())
 					}
 					if shared {
 						c.Count("dry_runs_where_a_third_or_later_victim_shares_a_device_with_an_earlier_one", 1)
@@ -2020,10 +2251,10 @@ func TestVerifC07Ledger(t *testing.T) {
 					for _, q := range victims {
 						if r.Bool() {
 							st := pl.PreFilterExtensions().AddPod(ctx, dry, pre, infos[q], nodeInfo)
-							c.Op("  dry run AddPod %s -> %v", q.name, st.IsSuccess())
+							c.Op("  dry run AddPod %s -> %v", q.key(), st.IsSuccess())
 							c.Count("dry_run_addpod_calls", 1)
 							delete(removed, q)
-							checkAll("dry run AddPod " + q.name)
+							checkAll("dry run AddPod " + q.key())
 						}
 					}
 					c.Seen("dry-run", sh.class, len(victims), shared, invClass(n))
